@@ -57,7 +57,10 @@ fn gen_g(r: &mut Rng, depth: usize) -> G {
         5 => G::Arr((0..r.below(4)).map(|_| gen_g(r, depth - 1)).collect()),
         _ => {
             let n = r.below(5);
-            let mut m: Vec<(String, G)> = (0..n).map(|_| (gen_str(r), gen_g(r, depth - 1))).collect();
+            // keys: mostly hostile strings, sometimes a member name ruma's own code mentions
+            let mut m: Vec<(String, G)> = (0..n)
+                .map(|_| (if r.chance(1, 5) { crate::jgen::gen_key(r) } else { gen_str(r) }, gen_g(r, depth - 1)))
+                .collect();
             // sometimes an explicit duplicate key
             if n > 0 && r.chance(1, 6) {
                 let k = m[r.below(n)].0.clone();
@@ -279,6 +282,11 @@ pub fn run(tier: &str, seed: u64, em: &mut Emitter) {
     for d in [1usize, 2, 126, 127, 128, 129] {
         emit(em, "systematic-depth", &format!("{}{}", "[".repeat(d), "]".repeat(d)));
         emit(em, "systematic-depth", &format!("{}1{}", "{\"a\":".repeat(d), "}".repeat(d)));
+    }
+    // every member name ruma's source mentions, at the top level and nested, next to an ordinary member
+    for k in crate::jgen::source_keys() {
+        emit(em, "systematic-source-key", &format!("{{\"b\":1,\"{k}\":1000000}}"));
+        emit(em, "systematic-source-key", &format!("{{\"{k}\":{{\"{k}\":[\"{k}\"]}},\"zz\":null}}"));
     }
     // all key permutations for up to 4 keys from a pool whose byte order and UTF-16 order differ
     let pool = ["\u{ffff}", "\u{10000}", "a", "", "\u{e9}", "B", "\u{1F600}", "\u{7f}"];
